@@ -800,6 +800,44 @@ func (g *genState) genCase(id string) {
 			g.emit("q fresh %d get id %s", tb, hx.Hex(ids[2]))
 			g.emit("q fresh %d all", tb)
 		}
+		if r.Chance(g.weight(3, "C06 C12", 5)) {
+			// ONE transaction inserts two keys sharing a prefix (it creates and owns the radix node they hang from),
+			// takes a watch handle for an absent sibling key through some query kind, and inserts that key: whether its
+			// own commit closes the handle is mechanism level (every kind except Get on a unique index freezes the index
+			// transaction first); a LATER transaction that deletes the key again must close it in any case
+			tb := r.Intn(2)
+			a, b := hx.Pick(r, idAlphabet), hx.Pick(r, idAlphabet)
+			x, y, z := idAlphabet[0], idAlphabet[1], idAlphabet[2]
+			ids := [][]byte{{a, b, x}, {a, b, y}, {a, b, z}}
+			mk := func(id []byte) *Obj {
+				return &Obj{ID: id, Val: 1 + r.Intn(9), U: [][]byte{}, N: [][]byte{}, LU: []LKey{}, LN: []LKey{}}
+			}
+			g.emit("begin %d", tb)
+			g.locked = map[int]bool{tb: true}
+			g.sh.begin(g.locked)
+			for _, id := range ids[:2] {
+				o := mk(id)
+				g.emit("insert %d %s", tb, g.objArgs(o))
+				g.sh.modify(tb, "insert", 0, o, true)
+			}
+			kind := hx.Pick(r, []string{"list", "list", "prefix", "lb", "get"})
+			g.emit("wq txn %d %s id %s", tb, kind, hx.Hex(ids[2]))
+			o := mk(ids[2])
+			g.emit("insert %d %s", tb, g.objArgs(o))
+			g.sh.modify(tb, "insert", 0, o, true)
+			g.emit("commit %d", g.nextSnap)
+			g.sh.commit()
+			g.snaps = append(g.snaps, g.nextSnap)
+			g.nextSnap++
+			g.emit("begin %d", tb)
+			g.sh.begin(g.locked)
+			g.emit("delete %d %s", tb, hx.Hex(ids[2]))
+			g.sh.delete(tb, false, 0, ids[2], true)
+			g.emit("commit %d", g.nextSnap)
+			g.sh.commit()
+			g.snaps = append(g.snaps, g.nextSnap)
+			g.nextSnap++
+		}
 		if r.Chance(g.weight(4, "C07 C08", 4)) {
 			// an iterator is created in a write transaction, advanced with that transaction (it observes the
 			// committed objects), and only then does the transaction delete one of them: the deletion is made
